@@ -1230,6 +1230,11 @@ struct TemplateCore {
                 ++index;
             }
 
+            if (index > length) {
+                // "{n}" (or "{n") without a matching sub-tag at the very end: the scan is one past the phrase.
+                index = length;
+            }
+
             StringUtils::EscapeHTMLSpecialChars(*stream_, (content + last_index), (index - last_index));
         } else {
             writeSlice(tag.Offset, tag.EndOffset);
